@@ -368,11 +368,13 @@ Proof.
   apply stable_ext with
     (d := fun s => obindE (fun _ => EInputEnded) (read_var_i32 a_reader s)
                      (fun x => if (fst x =? -1)%Z then dec_unknown a_ops fuel d (snd x)
+                               else if (fst x <? 0)%Z then Err EDeserializationFailure
                                else dec_known fuel d (as_usize (fst x)) (snd x))).
   - intros s. unfold dec_seq_items. change (d_rd a_ops) with a_reader.
     destruct (read_var_i32 a_reader s) as [[n s1] | e | p | ]; reflexivity.
   - apply stable_bindE; [apply read_var_i32_stable|]. intros n. cbn [fst snd].
-    destruct (n =? -1)%Z; [apply dec_unknown_stable | apply dec_known_stable]; exact Hd.
+    destruct (n =? -1)%Z; [apply dec_unknown_stable; exact Hd |].
+    destruct (n <? 0)%Z; [apply stable_err | apply dec_known_stable; exact Hd].
 Qed.
 
 (* ------------------------------------------------------------------ *)
